@@ -33,7 +33,11 @@ type polSpec struct {
 	Short bool `json:"short,omitempty"`
 	// hedge (transparent: 1h delay)
 	MaxHedges  int  `json:"max_hedges,omitempty"`
-	CancelNone bool `json:"cancel_never,omitempty"` // only with MaxHedges == 0
+	CancelNone bool `json:"cancel_never,omitempty"` // only with MaxHedges == 0, or with WaitDelay
+	// WaitDelay: 60ms hedge delay, cancel conditions that never match, MaxHedges >= 1. Only generated inside a short Timeout
+	// in programs whose every step blocks: the Timeout cancels the hedge's parent before the delay elapses, so the policy
+	// must return the cancellation result when the delay is over instead of starting a hedge.
+	WaitDelay bool `json:"wait_delay,omitempty"`
 	// fallback
 	FbKind string `json:"fb_kind,omitempty"` // result | error | func
 	FbRes  int    `json:"fb_res,omitempty"`
@@ -170,6 +174,9 @@ var allKinds = []string{"retry", "breaker", "limiter", "bulkhead", "timeout", "h
 
 // genProgram generates one program; bias steers the composition towards a property's subject.
 func genProgram(r *rand.Rand, bias string) program {
+	if (bias == "" || bias == "events" || bias == "stats") && r.IntN(60) == 0 {
+		return genHedgeWaitProgram(r, bias)
+	}
 	p := program{Bias: bias}
 	n := 1 + r.IntN(5)
 	var must string
@@ -245,4 +252,43 @@ func (s estep) String() string {
 		b = "block;"
 	}
 	return fmt.Sprintf("(%s%d,%s)", b, s.Res, c02ErrNames[s.Err])
+}
+
+// genHedgeWaitProgram: [outer retry/fallback]? > timeout! > [retry/fallback/timeout]? > hedge(wait delay) > [retry/fallback/timeout]*
+// with scripts made of blocking steps only (see polSpec.WaitDelay).
+func genHedgeWaitProgram(r *rand.Rand, bias string) program {
+	p := program{Bias: bias, hasShort: true}
+	pick := func(kinds ...string) {
+		pl := genPol(r, kinds[r.IntN(len(kinds))])
+		pl.Short = false
+		if pl.Kind == "retry" && pl.MaxRetries < 0 || pl.MaxRetries > 2 {
+			pl.MaxRetries = 1
+		}
+		p.Pols = append(p.Pols, pl)
+	}
+	if r.IntN(2) == 0 {
+		pick("retry", "fallback")
+	}
+	to := genPol(r, "timeout")
+	to.Short = true
+	p.Pols = append(p.Pols, to)
+	if r.IntN(2) == 0 {
+		pick("retry", "fallback", "timeout")
+	}
+	h := genPol(r, "hedge")
+	h.MaxHedges, h.CancelNone, h.WaitDelay = 1+r.IntN(2), true, true
+	p.Pols = append(p.Pols, h)
+	for i := r.IntN(3); i > 0; i-- {
+		pick("retry", "fallback", "timeout")
+	}
+	p.ExecLis = vk.Pick(r, uint32(7), 7, 5, 6, 0)
+	ne := 1 + r.IntN(2)
+	for e := 0; e < ne; e++ {
+		x := execSpec{Entry: r.IntN(8) | 1, CtxKey: "-"}
+		for s := 0; s < 8; s++ {
+			x.Script = append(x.Script, estep{Res: vk.Pick(r, 0, 5, 7, 9), Err: vk.Pick(r, 0, 1, 2), Block: true})
+		}
+		p.Execs = append(p.Execs, x)
+	}
+	return p
 }
